@@ -67,3 +67,19 @@ package modepb
 //@     invariant 0 <= k && k <= len(modes.Modes)
 //@     invariant modeValues != nil && modeValues.Values != nil
 //@     decreases len(modes.Modes) - k
+//@
+//@ property C14
+//@ // ---- the one Update of this server that the C14 template (verif_contracts_c14.go) does not fit: relative adjustments
+//@ // travel as an interceptor, and a request without values writes an empty message.  One write, of the request's values
+//@ // when it has any, and the model's verdict (stored value or error) goes back unchanged ----
+//@ func (*Model).UpdateModeValues(values, opts) (res, err)
+//@   trusted
+//@   option opaque
+//@   modifies all
+//@
+//@ func (*ModelServer).UpdateModeValues(ctx, request) (res, err)
+//@   requires recv != nil && recv.model != nil && request != nil
+//@   track UpdateModeValues
+//@   ensures [forwarded] calls(UpdateModeValues) == old(calls(UpdateModeValues)) + 1 && lastarg(UpdateModeValues, 0) == old(recv.model) &&
+//@   |   (old(request.ModeValues) != nil ==> lastarg(UpdateModeValues, 1) == old(request.ModeValues)) && lastarg(UpdateModeValues, 1) != nil
+//@   ensures [answer] res == lastcall(UpdateModeValues, 0) && err == lastcall(UpdateModeValues, 1)
